@@ -90,7 +90,8 @@ func (w *world) cfgLine() {
 		}
 		ip, n, _ := net.ParseCIDR(acc)
 		ones, _ := n.Mask.Size()
-		ev["access"] = sysh.U32(ip)
+		_ = ip
+		ev["access"] = sysh.U32(n.IP) // MustParseStrIP keeps the masked address (net.ParseCIDR's network): what up4.accessIP.IP is
 		_, pn, _ := net.ParseCIDR(o.Pool)
 		pones, _ := pn.Mask.Size()
 		tcs := [][]int{}
